@@ -46,6 +46,32 @@ fn cases_special(_rng: &mut Rng, sink: &mut dyn FnMut(J) -> bool) {
             return;
         }
     }
+    // a user-supplied top-level cnf, with and without a holder key, visible and hidden
+    let mut cnf_n = 0usize;
+    for cnf in [json!({"jwk": {"kty": "oct", "k": "dXNlci1jbmY"}}), json!("user-cnf-string"), json!({"kid": "user-key-7", "x": [1]}), json!(7), json!(null)] {
+        let claims = std(json!({"sub": "s", "cnf": cnf, "a": {"cnf": "nested-cnf"}}));
+        for s in [
+            Strategy::NoSD,
+            Strategy::Custom(vec!["$.sub".into()]),
+            Strategy::Custom(vec!["$.a.cnf".into()]),
+            Strategy::Custom(vec!["$.cnf".into()]),
+            Strategy::TopLevel,
+            Strategy::AllLevels,
+        ] {
+            for holder in [Some("es256"), Some("eddsa"), None] {
+                for format in ["compact", "json"] {
+                    let mut cfg = Cfg::simple(claims.clone(), s.clone());
+                    cfg.holder = holder.map(String::from);
+                    cfg.format = format.into();
+                    cnf_n += 1;
+                    cfg.decoys = cnf_n % 3 == 0;
+                    if !sink(cfg.to_json()) {
+                        return;
+                    }
+                }
+            }
+        }
+    }
     // sibling names in a prefix relation
     let prefix_trees = vec![
         std(json!({"id": {"card": "visible-card", "x": 1}, "idcard": "hidden-idcard"})),
@@ -181,6 +207,12 @@ pub fn check(case: &J) -> Verdict {
             format!("{e}; payload = {}; disclosures = {}", short(&jstr(&J::Object(payload.clone())), 500), short(&jstr(&json!(parts.disclosures.iter().map(|d| crate::util::decode_disclosure(d).unwrap_or(J::Null)).collect::<Vec<_>>())), 500)),
             "hidden exactly the designated claims, each only as one digest at its own position, everything else in clear",
         );
+    }
+    // the holder-key confirmation claim added by the issuer is not part of the user's claims
+    let mut payload = payload;
+    let user_cnf_visible = cfg.claims.get("cnf").is_some() && !cfg.strategy.designated(&[Seg::Key("cnf".into())]);
+    if cfg.holder.is_some() && !user_cnf_visible {
+        payload.shift_remove("cnf");
     }
     if let Some(l) = leak_check(&cfg, &jstr(&J::Object(payload))) {
         return fail(l, "a hidden claim's name and value occur nowhere in the payload");
